@@ -168,6 +168,27 @@ pub fn digest_key_info(k: &KeyInfo) -> u64 {
 }
 
 
+/// Parameter modules the universes are built from: p3_test_utils' own, plus a KoalaBear module whose
+/// PCS is the hiding one (HidingFriPcs over the plain MMCS; `is_zk() == 1`).
+pub mod uparams {
+    pub use p3_test_utils::{baby_bear_params, goldilocks_params, koala_bear_params, koala_bear_quintic_params};
+    pub mod kb_zk_params {
+        pub use p3_test_utils::koala_bear_params::{Challenge, ChallengeMmcs, Challenger, DIGEST_ELEMS, Dft, F, MyCompress, MyHash, MyMmcs, Perm, RATE, WIDTH};
+        pub type MyPcs = p3_fri::HidingFriPcs<F, Dft, MyMmcs, ChallengeMmcs, rand::rngs::SmallRng>;
+        pub type MyConfig = p3_uni_stark::StarkConfig<MyPcs, Challenge, Challenger>;
+        pub fn make_test_config() -> MyConfig {
+            let perm = p3_koala_bear::default_koalabear_poseidon2_16();
+            let hash = MyHash::new(perm.clone());
+            let compress = MyCompress::new(perm.clone());
+            let val_mmcs = MyMmcs::new(hash, compress, 0);
+            let challenge_mmcs = ChallengeMmcs::new(val_mmcs.clone());
+            let fri_params = p3_fri::FriParameters::new_testing(challenge_mmcs, 0);
+            let pcs = MyPcs::new(Dft::default(), val_mmcs, fri_params, 2, <rand::rngs::SmallRng as rand::SeedableRng>::seed_from_u64(0x5eed_0003));
+            MyConfig::new(pcs, Challenger::new(perm))
+        }
+    }
+}
+
 macro_rules! uni_npo_prover {
     (yes, $p:ident, $cfg:ident, $d:expr, $p2cfg:expr) => {
         if $cfg.npo.poseidon {
@@ -242,11 +263,11 @@ macro_rules! binomial_universe {
                     .with_horner_pack_k(cfg.horner_k)
                     .with_min_trace_height(cfg.min_height)
             }
-            pub fn config() -> p3_test_utils::$params::MyConfig {
+            pub fn config() -> crate::uni::uparams::$params::MyConfig {
                 $mkcfg()
             }
             #[allow(clippy::type_complexity)]
-            pub fn prover(cfg: &ProverCfg) -> p3_circuit_prover::BatchStarkProver<p3_test_utils::$params::MyConfig> {
+            pub fn prover(cfg: &ProverCfg) -> p3_circuit_prover::BatchStarkProver<crate::uni::uparams::$params::MyConfig> {
                 let mut p = p3_circuit_prover::BatchStarkProver::new(Self::config()).with_table_packing(Self::packing(cfg));
                 if cfg.debug_lookups {
                     p = p.with_debug_lookups();
@@ -256,15 +277,15 @@ macro_rules! binomial_universe {
             }
         }
         impl CircuitUni for $name {
-            type BF = p3_test_utils::$params::F;
+            type BF = crate::uni::uparams::$params::F;
             type EF = $efty;
             type Keys = (
-                p3_circuit_prover::CircuitProverData<p3_test_utils::$params::MyConfig>,
+                p3_circuit_prover::CircuitProverData<crate::uni::uparams::$params::MyConfig>,
                 Vec<usize>,
                 Vec<String>,
-                Vec<p3_circuit_prover::common::CircuitTableAir<p3_test_utils::$params::MyConfig, $d>>,
+                Vec<p3_circuit_prover::common::CircuitTableAir<crate::uni::uparams::$params::MyConfig, $d>>,
             );
-            type Proof = p3_circuit_prover::BatchStarkProof<p3_test_utils::$params::MyConfig>;
+            type Proof = p3_circuit_prover::BatchStarkProof<crate::uni::uparams::$params::MyConfig>;
             const NAME: &'static str = $uname;
             const D: usize = $d;
 
@@ -276,7 +297,7 @@ macro_rules! binomial_universe {
 
             fn keygen(circuit: &Circuit<Self::EF>, cfg: &ProverCfg) -> Result<Self::Keys, String> {
                 use p3_circuit_prover::common::{NpoPreprocessor, get_airs_and_degrees_with_prep};
-                type SC = p3_test_utils::$params::MyConfig;
+                type SC = crate::uni::uparams::$params::MyConfig;
                 let packing = Self::packing(cfg);
                 let mut npo_prep: Vec<Box<dyn NpoPreprocessor<Self::BF>>> = Vec::new();
                 let mut air_builders = Vec::new();
@@ -300,7 +321,9 @@ macro_rules! binomial_universe {
                     .collect();
                 let (airs, degrees): (Vec<_>, Vec<usize>) = airs_degrees.into_iter().unzip();
                 let config = Self::config();
-                let pd = p3_batch_stark::ProverData::from_airs_and_degrees(&config, &airs, &degrees);
+                // a hiding PCS commits to randomised traces of twice the height
+                let ext_degrees: Vec<usize> = degrees.iter().map(|d| d + p3_uni_stark::StarkGenericConfig::is_zk(&config)).collect();
+                let pd = p3_batch_stark::ProverData::from_airs_and_degrees(&config, &airs, &ext_degrees);
                 Ok((p3_circuit_prover::CircuitProverData::new(pd, prim, npo), degrees, order, airs))
             }
 
@@ -357,7 +380,7 @@ macro_rules! binomial_universe {
                     .iter()
                     .zip(mats.iter())
                     .map(|(air, m)| {
-                        type Ch = <p3_test_utils::$params::MyConfig as p3_uni_stark::StarkGenericConfig>::Challenge;
+                        type Ch = <crate::uni::uparams::$params::MyConfig as p3_uni_stark::StarkGenericConfig>::Challenge;
                         use p3_circuit_prover::common::CircuitTableAir as T;
                         use p3_test_utils::air_satisfaction::check_air_satisfies as chk;
                         match crate::core::pool::observe(|| match air {
@@ -428,6 +451,18 @@ binomial_universe!(
     p3_baby_bear::default_babybear_poseidon2_16
 );
 
+binomial_universe!(
+    Kb4zk,
+    "U-KB4-ZK",
+    kb_zk_params,
+    crate::uni::uparams::kb_zk_params::make_test_config,
+    p3_field::extension::BinomialExtensionField<p3_koala_bear::KoalaBear, 4>,
+    4,
+    yes,
+    p3_circuit::ops::Poseidon2Config::KOALA_BEAR_D4_W16,
+    p3_poseidon2_circuit_air::KoalaBearD4Width16,
+    p3_koala_bear::default_koalabear_poseidon2_16
+);
 // Universes without non-primitive tables (other extension degrees and reductions of the ALU table).
 binomial_universe!(
     Bb5,
@@ -506,7 +541,8 @@ pub fn gl_make_test_config() -> p3_test_utils::goldilocks_params::MyConfig {
 /// Circuit-proof universe of run `idx` (degree-4 universes carry 7 of 12 runs).
 pub fn uni_of(idx: u64) -> &'static str {
     match idx % 12 {
-        0 | 2 | 4 | 10 => "U-KB4",
+        0 | 2 | 4 => "U-KB4",
+        10 => "U-KB4-ZK",
         1 | 3 | 11 => "U-BB4",
         5 => "U-BB5",
         6 => "U-KB5Q",
@@ -543,6 +579,10 @@ macro_rules! with_uni {
             }
             "U-GL2" => {
                 type $U = $crate::uni::Gl2;
+                $body
+            }
+            "U-KB4-ZK" => {
+                type $U = $crate::uni::Kb4zk;
                 $body
             }
             _ => {
